@@ -284,3 +284,110 @@ Proof.
      |eapply tokb_weaken; [exact T7|unfold tb, p61, step, big; lia]].
   apply Z.ltb_ge in El. rewrite N7, N6, N4, N5, Hst, Hcur in El. lia.
 Qed.
+
+(* ---- the round window ------------------------------------------------------------------------ *)
+
+Lemma current_estimated_round_math : forall S, 0 < S < two63 ->
+  Z.of_N (current_estimated_round S) = est_round S.
+Proof.
+  intros S HS. unfold current_estimated_round, est_round.
+  destruct (S <=? 0) eqn:E0; [apply Z.leb_le in E0; lia|].
+  unfold quickTimeout_ns, slowTimeout_ns, quickTimeoutThreshold, firstRound, two63 in *.
+  rewrite Z.quot_div_nonneg by lia.
+  assert (Hq : 0 <= S / 2000000000 < 4611686019).
+  { split; [apply Z.div_pos; lia|]. apply Z.div_lt_upper_bound; lia. }
+  rewrite (wrap_u64_small (S / 2000000000)) by (unfold two64; lia).
+  assert (Hq1 : Z.of_N (addw 1 (Z.to_N (S / 2000000000))) = 1 + S / 2000000000).
+  { rewrite addw_small; rewrite Z2N.id by lia; [reflexivity|unfold two64; lia]. }
+  destruct (addw 1 (Z.to_N (S / 2000000000)) <=? 8)%N eqn:E1.
+  - apply N.leb_le in E1.
+    destruct (Z.of_N 1 + S / 2000000000 <=? Z.of_N 8) eqn:E2; [rewrite Hq1; reflexivity|].
+    apply Z.leb_gt in E2. lia.
+  - apply N.leb_gt in E1.
+    destruct (Z.of_N 1 + S / 2000000000 <=? Z.of_N 8) eqn:E2; [apply Z.leb_le in E2; lia|].
+    assert (Hs : 16000000000 <= S).
+    { destruct (Z_lt_ge_dec S 16000000000) as [Hlt|]; [|lia].
+      assert (S / 2000000000 < 8) by (apply Z.div_lt_upper_bound; lia). lia. }
+    change (Z.of_N 8 * 2000000000) with 16000000000.
+    rewrite Z.quot_div_nonneg by lia.
+    assert (Hq2 : 0 <= (S - 16000000000) / 120000000000 < 76861434).
+    { split; [apply Z.div_pos; lia|]. apply Z.div_lt_upper_bound; lia. }
+    rewrite (wrap_u64_small ((S - 16000000000) / 120000000000)) by (unfold two64; lia).
+    change (addw 8 1) with 9%N.
+    rewrite addw_small.
+    + rewrite Z2N.id by lia. change (Z.of_N 9) with 9. change (Z.of_N 8) with 8. change (Z.of_N 1) with 1. lia.
+    + rewrite Z2N.id by lia. change (Z.of_N 9) with 9. unfold two64. lia.
+Qed.
+
+Lemma round_window : forall c now slot round ttl,
+  wf_cfg c -> wf_time c now -> (ttl <= 100)%N ->
+  Z.of_N slot <= true_slot c (fst now) ->
+  start_ns c (true_slot c (fst now)) <=
+    start_ns c (Z.of_N slot + Z.of_N ttl) + lateMessageMargin_ns + clockErrorTolerance_ns ->
+  (addw (estimated_round c slot (time_unix (fst now) (snd now))) allowedRoundsInFuture <? round)%N = false ->
+  Z.of_N round <= est_round (now_ns now - start_ns c (Z.of_N slot)) + Z.of_N allowedRoundsInFuture.
+Proof.
+  intros c now slot round ttl W (Hg & Hd & Hs & Hn) Ht Hle Hlate H.
+  pose proof W as (Hd0 & _ & _).
+  set (cur := true_slot c (fst now)) in *.
+  destruct (true_slot_bounds c (fst now) W Hs) as (Hc0 & Hc1). fold cur in Hc0, Hc1.
+  assert (Hdur : 0 < Z.of_N (c_slot_dur c) < 1048576) by lia.
+  (* the slot's start *)
+  destruct (slot_start_ns c slot Hg) as (T1 & N1).
+  { assert (Z.of_N slot * Z.of_N (c_slot_dur c) <= cur * Z.of_N (c_slot_dur c)) by nia. unfold p61 in *. lia. }
+  (* the reception time *)
+  set (recv := time_unix (fst now) (snd now)) in *.
+  assert (T2 : tokb tb recv /\ ns_of recv = now_ns now + unixToInternal * nano).
+  { unfold recv, time_unix, tokb, ns_of, now_ns. cbn [t_sec t_nsec].
+    rewrite to_i64_range by (unfold unixToInternal, two63, p61 in *; lia).
+    unfold tb, p61, step, unixToInternal, nano in *. lia. }
+  destruct T2 as (T2 & N2).
+  (* now is before the end of the current slot *)
+  assert (Hnow : now_ns now < start_ns c (cur + 1)).
+  { unfold now_ns, start_ns, cur, true_slot, nano in *.
+    destruct (fst now <? Z.of_N (c_genesis c)) eqn:E; [apply Z.ltb_lt in E; nia|].
+    apply Z.ltb_ge in E.
+    pose proof (Z.mod_pos_bound (fst now - Z.of_N (c_genesis c)) (Z.of_N (c_slot_dur c)) ltac:(lia)) as Hm.
+    pose proof (Z.div_mod (fst now - Z.of_N (c_genesis c)) (Z.of_N (c_slot_dur c)) ltac:(lia)) as Hdm.
+    nia. }
+  set (S := now_ns now - start_ns c (Z.of_N slot)) in *.
+  assert (HS : S < 1000000000000000000).
+  { unfold S. unfold start_ns, lateMessageMargin_ns, clockErrorTolerance_ns, nano in *. nia. }
+  unfold estimated_round in H. unfold time_after in H.
+  rewrite (time_before_ns tb _ _ T1 T2) in H. rewrite N1, N2 in H.
+  assert (Hest : Z.of_N (if start_ns c (Z.of_N slot) + unixToInternal * nano <? now_ns now + unixToInternal * nano
+                         then current_estimated_round (time_sub recv (slot_start c slot)) else firstRound)
+                 = est_round S).
+  { destruct (_ <? _) eqn:E.
+    - apply Z.ltb_lt in E. assert (0 < S) by (unfold S; lia).
+      destruct (time_sub_spec recv (slot_start c slot)) as (S1 & _ & _);
+        [eapply tokb_weaken; [exact T2|unfold tb, p61, step, big; lia]
+        |eapply tokb_weaken; [exact T1|unfold tb, p61, step, big; lia]|].
+      rewrite S1 by (rewrite N1, N2; fold S; unfold two63; lia).
+      rewrite N1, N2. replace (now_ns now + unixToInternal * nano - (start_ns c (Z.of_N slot) + unixToInternal * nano)) with S by (unfold S; lia).
+      apply current_estimated_round_math. unfold two63. lia.
+    - apply Z.ltb_ge in E. unfold est_round. assert (S <= 0) by (unfold S; lia).
+      destruct (S <=? 0) eqn:E2; [reflexivity|apply Z.leb_gt in E2; lia]. }
+  apply N.ltb_ge in H.
+  assert (Hb : 0 <= est_round S <= 1000000000).
+  { unfold est_round, firstRound, quickTimeoutThreshold, quickTimeout_ns, slowTimeout_ns.
+    change (Z.of_N 1) with 1. change (Z.of_N 8) with 8.
+    destruct (S <=? 0) eqn:E; [lia|]. apply Z.leb_gt in E.
+    assert (0 <= S / 2000000000 < 500000000) by (split; [apply Z.div_pos; lia|apply Z.div_lt_upper_bound; lia]).
+    destruct (1 + S / 2000000000 <=? 8) eqn:E2; [lia|].
+    apply Z.leb_gt in E2. change (8 * 2000000000) with 16000000000.
+    assert (16000000000 <= S).
+    { destruct (Z_lt_ge_dec S 16000000000) as [Hlt|]; [|lia].
+      assert (S / 2000000000 < 8) by (apply Z.div_lt_upper_bound; lia). lia. }
+    assert (0 <= (S - 16000000000) / 120000000000 < 10000000) by (split; [apply Z.div_pos; lia|apply Z.div_lt_upper_bound; lia]).
+    lia. }
+  rewrite <- Hest in Hb |- *.
+  assert (Ha : Z.of_N (addw (if start_ns c (Z.of_N slot) + unixToInternal * nano <? now_ns now + unixToInternal * nano
+                              then current_estimated_round (time_sub recv (slot_start c slot)) else firstRound)
+                             allowedRoundsInFuture)
+               = Z.of_N (if start_ns c (Z.of_N slot) + unixToInternal * nano <? now_ns now + unixToInternal * nano
+                         then current_estimated_round (time_sub recv (slot_start c slot)) else firstRound)
+                 + Z.of_N allowedRoundsInFuture).
+  { apply addw_small. unfold allowedRoundsInFuture, two64. change (Z.of_N 1) with 1. lia. }
+  lia.
+Qed.
